@@ -6,13 +6,13 @@ HERE = os.path.dirname(os.path.dirname(os.path.abspath(__file__)))
 CLAIMED = {
  "C08": dict(level="fault_enumeration", ref="DESIGN.md section 4 C08",
    text="Seeded workloads (object graphs x preconditions x store/mode x I/O schedules); for each, a deterministic recording pass counts every store operation / zip member / pickle call of save(), then the history is re-executed with an exception injected at sampled (quick) or EVERY (thorough) position; after each step a reference model of the allowed target states (absent, unreadable, bit-identical old, complete old, complete new) is checked by loading the target in a restart, plus sibling-tree hashes, staging leaks, write-once immutability and recovery by the next clean save. Sampling over workloads/schedules, exhaustive over fault positions per workload in the thorough tier.",
-   note="Trusts: zarr's _put is atomic (write-temp + rename); simulated executor runs each blocking call atomically; only Exception-type faults at the operations the property names; completeness judged against a fault-free save+load of the same object in the same run.",
+   note="Trusts: zarr's _put is atomic (write-temp + rename); simulated executor runs each blocking call atomically; Exception-type faults at the operations the property names plus an injected Ctrl-C (BaseException) at the synchronous zip-assembly seams; pre-states include foreign files/dirs, earlier objects, hard-linked snapshots, symlinked targets and '..' behind symlinked parents (a link's destination counts as part of the target); completeness judged against a fault-free save+load of the same object in the same run.",
    technique="deterministic simulation: virtual-time single-thread zarr event loop + fault-position sweep over recorded store/zip/pickle operations, reference model of allowed durable states"),
 }
 CLAIMED["C01"] = dict(level="exploration", ref="DESIGN.md section 4 C01",
    text="Seeded search over object graphs (swarm of value kinds, sizes, tricky names) x both stores x compression levels x modes x preconditions x I/O schedules: save under the simulated zarr loop, restart (expectation rebuilt from the JSON spec, freed memory poisoned, sampled loads in a process forked before the graph existed), load, exact structural comparison incl. attribute-name sets, second generation fixed point and zip-vs-dir agreement. Sampling, not enumeration: a clean run is evidence over the explored graphs/schedules only.",
    note="Trusts the structural comparison in qsim/graphs.py (exact dtype/shape/bytes, container kinds, attribute sets; numeric-value comparison only where the property allows it). Generator restrictions are listed in the evidence assumptions.",
-   technique="deterministic simulation: seeded object-graph workloads under a virtual-time zarr loop with seeded I/O completion/listing order, restart-then-compare oracle, second-generation fixed point")
+   technique="deterministic simulation: seeded object-graph workloads under a virtual-time zarr loop with seeded I/O completion/listing order, restart-then-compare oracle (same process, forked process with poisoned memory, fresh interpreter with another PYTHONHASHSEED), second-generation fixed point, tuning-knob randomisation")
 CLAIMED["C14"] = dict(level="exploration", ref="DESIGN.md section 4 C14",
    text="Seeded search over attribute-nested object graphs (names repeated across levels) x skip sets (present/absent names at any depth, lists of types incl. a base class) x stores x I/O schedules; six save/load histories (skip at save, at load, split, second generation, by type) are executed under the simulated zarr loop and each result is compared with a pruning reference model applied to the unskipped round trip; confluence save-skip == load-skip is checked pairwise.",
    note="Trusts graphs.equal and the pruning model (attribute paths removed by name at every attribute-nested level; isinstance for types on the original values). Load-time type skipping and AutoSerialize objects inside containers are outside the property and not generated.",
@@ -31,7 +31,7 @@ CLAIMED["C03"] = dict(level="exploration", ref="DESIGN.md section 4 C03",
    technique="deterministic history simulation: seeded, coverage-steered operation sequences incl. rejected operations; NumPy-as-specification and in-place-vs-copy differential oracles; ddmin-minimised replays")
 CLAIMED["C09"] = dict(level="exploration", ref="DESIGN.md section 4 C09",
    text="The library's own seeded scheduler is the object under test. (A) SimpleBatcher driven by simulator-answered permutations (identity/reverse/rotation/riffle/last-block-first/PRNG) over n, batch size, validation ratio/mode and epochs: exact partition per epoch, len == batches yielded, disjoint covering split, stable split, contiguous tilings of generate_batches. (B) per-batch losses and gradients tapped through the real reconstruct() loop at fixed parameters for every divisor batch size: mean equals full batch. (C) seeded determinism checked as replay: two instances / reset-and-rerun give identical batch sequences and loss histories, another seed gives another schedule; the batches seen by the forward model form an exact partition. Sampling over configurations.",
-   note="Trusts the tiny simulated ptychography problem (qsim/tinyptycho.py) as a representative instance; float32 tolerance 1e-4 (HEAD deviates <= 3e-7); autograd path and l1/l2 losses only; the optimizer update is skipped in (B) by overriding the public step_optimizers method.",
+   note="Trusts the tiny simulated ptychography problem (qsim/tinyptycho.py) as a representative instance; float32 tolerance 1e-4 (HEAD deviates <= 3e-7); all five loss types; gradients compared for the autograd path only (autograd=False yields a per-batch normalised update direction, not the loss gradient); a fraction of the seeded runs is repeated in a fresh interpreter with another PYTHONHASHSEED; the optimizer update is skipped in (B) by overriding the public step_optimizers method.",
    technique="deterministic schedule simulation: simulator-owned permutation answers and batch-size knob, invariants per epoch, batch-invariance and seeded-replay oracles through the real reconstruction loop")
 CLAIMED["C18"] = dict(level="exploration", ref="DESIGN.md section 4 C18",
    text="Seeded 4-D datasets (non-square scan and detector, positive asymmetric patterns) and a history of calls on ONE origin-model instance: calculate_origin / fit_origin_background / shift_origin_to under every batch size the public knob can produce, injected MemoryError after j batches followed by a retry with a smaller batch (the failed call must not change published state), planted plane/constant origins, planted integer origins (shift must equal np.roll), plus the dataset model's vectorised and looped paths and ptycho_utils.fit_origin; all compared with a float64 NumPy reference. The schedule dimension is the batch partition and the fault/retry history; the analytic oracles ride along.",
@@ -40,11 +40,11 @@ CLAIMED["C18"] = dict(level="exploration", ref="DESIGN.md section 4 C18",
 CLAIMED["C04"] = dict(level="exploration", ref="DESIGN.md section 4 C04",
    text="Seeded direct-ptychography problems and ONE instance reused for a history of reconstruct calls (all five kernels and their aliases, upsampling 1-3, filters, sub-masks) under every batch size the public knob can produce, with MemoryError injected after j batches of pass 1 or pass 2 followed by a retry with a smaller batch (failed calls must leave the published stack untouched); every call is compared with a fresh instance run full-batch. Linearity in the stack, recombination of complementary sub-masks with aperture weights and the two analytic parallax limits (NumPy reference) ride along on the same instances and are labelled as pure-input oracles.",
    note="Trusts the fresh full-batch run of the real code as reference for clause 1 and ~20 lines of NumPy for the analytic clauses; float32 tolerances calibrated on HEAD (<= 2e-7 observed, 2e-5 demanded). Thin as a simulation target (DESIGN section 2): the schedule is the batch partition, the history is instance reuse, the fault is an allocation failure mid-stream.",
-   technique="deterministic schedule simulation: batch-size knob, armed allocation failure in pass 1/2 + retry on a reused instance, fresh-instance full-batch reference, analytic NumPy oracles")
+   technique="deterministic schedule simulation: batch-size knob, armed allocation failure in pass 1/2 + retry on a reused instance, fresh-instance full-batch reference, cropped-vs-uncropped mask instances, analytic NumPy oracles, tuning-knob randomisation")
 CLAIMED["C05"] = dict(level="exploration", ref="DESIGN.md section 4 C05",
    text="A tiny ptychography problem is built twice from one seeded configuration (object type, slices, probe modes, optimizer x lr, optimised subset, scheduler, constraints, snapshots, store, compression, I/O schedule): U runs uninterrupted (the real code is its own reference model), R receives the same reconstruct calls interleaved with interruptions - save with data under the simulated zarr loop + restart + from_file, clone, clone with an injected deepcopy failure (save/reload fallback) - incl. split at iteration 0, adjacent interruptions and interruption of a clone. Exact comparison of what the statement lists right after every interruption, tolerance comparison with U after every later call, clone independence by stepping the clone and diffing the original.",
    note="Trusts the uninterrupted twin as reference and the calibrated tolerance 1e-4 (HEAD <= 7e-7). Full batch only; raw data saved with the object; optimizer/scheduler binding are diagnostics only. No GPU: device moves are CPU->CPU.",
-   technique="deterministic simulation: twin instances, seeded interruption histories (save/restart/reload under a virtual-time zarr loop, clone, injected deepcopy failure), uninterrupted-twin oracle")
+   technique="deterministic simulation: twin instances, seeded interruption histories (save/restart/reload under a virtual-time zarr loop, clone, injected deepcopy failure), uninterrupted-twin oracle with measured round-off scale, reload-and-continue repeated in a fresh interpreter with another PYTHONHASHSEED")
 NA = {
  "C02": "single evaluation of a deterministic forward model at a known ground truth; no schedule, state, fault or persistence in the claim - a simulator would only be an input generator",
  "C06": "conservation laws of bin/fourier_resample/pad/crop as pure array->array maps (the operation-history aspect of the same methods is claimed under C03)",
